@@ -409,6 +409,8 @@ func (el *EventList) compress() *compressedEventList {
 }
 
 func (el *EventList) uncompress(c *compressedEventList) {
+	// the receiver may have been used before: afterwards it holds exactly the events of c
+	el.Events = nil
 	if len(c.E) != 0 {
 		el.Events = make([]*Event, len(c.E))
 	}
